@@ -347,3 +347,19 @@ def run(repo, rep, tier):  # noqa: F811 -- round-6 remedies (core/round6.py)
 _ADDR6C = '  Borrowed: R04.7.'
 EXPLANATION += _ADDR6C
 LEVEL_TEXT += _ADDR6C
+
+
+_run_before_r6c = run
+
+
+def run(repo, rep, tier):  # noqa: F811 -- round-6 remedies, batch 3
+    _run_before_r6c(repo, rep, tier)
+    if getattr(rep, "borrowed", False):
+        return
+    from ..core import round6 as _r6c
+    _r6c.codec_binds_from_attrs(repo, rep, "R10.9")
+
+
+_ADDR6D = " R10.9: pack_dataclass / unpack_dataclass bind nested methods from the builder's own holder only."
+EXPLANATION += _ADDR6D
+LEVEL_TEXT += _ADDR6D
